@@ -48,6 +48,16 @@ inductive Tree where
   | inner (height size version : Int) (key : Bytes) (l r : Tree)
 deriving Repr
 
+/-- the leaves in key order: (key, value, version) -/
+def Tree.leaves : Tree → List (Bytes × Bytes × Int)
+  | .leaf k v ver => [(k, v, ver)]
+  | .inner _ _ _ _ l r => Tree.leaves l ++ Tree.leaves r
+
+/-- `ImmutableTree.Get`: descent by the routing keys -/
+def Tree.find : Tree → Bytes → Option Bytes
+  | .leaf k v _, key => if k = key then some v else none
+  | .inner _ _ _ nk l r, key => if key < nk then Tree.find l key else Tree.find r key
+
 /-- `ProofInnerNode` -/
 structure PIN where
   height : Int
